@@ -9,17 +9,19 @@ LEVEL = ('decides the blocking-clause mechanism: the clause ranges over every do
          "num_domains) with one `!=` predicate on that domain's own value; it is stored on the "
          'Satisfiable arm and added — before the next solve, on every path — at the next call; the '
          'result mapping (Satisfiable→Solution, Unsatisfiable→Finished iff a solution was seen, '
-         'Unknown→Unknown, failed blocking clause→Finished). Also decides kernel hygiene the blocking '
-         'clauses rely on: no element skipped after swap_remove, nogoods deleted only when not a '
-         'reason (B4/B5), implicit reasons imply their predicate (B6), the nogood propagator looks at '
-         'exactly the watchers whose predicate became true and never drops an unvisited one (B7/B8). '
-         'Also runs the KERNEL BUNDLE (rule ids …K<n>): the kernel rules every verdict depends on — '
-         'predicate algebra, nogood watchers, minimisers, conflict-analysis tables, nogood deletion, '
-         'decision read-back, no-learning resolver, constraint builders, reified reasons — wherever '
-         'they are not already registered here under another id. Also runs the LIFE-CYCLE BUNDLE '
-         '(…L<n>): the typestate rules over arbitrary API sequences of C10 (usable root state after '
-         'every call, inert posting in inconsistent states, entry guards, stored-solution extent). '
-         'Does not decide that the underlying solves are correct (C01/C02)')
+         'Unknown→Unknown, failed blocking clause→Finished; an answer given from an "enumeration '
+         'ended" memo field is admitted only if the memo is set solely where the end was established).'
+         ' Also decides kernel hygiene the blocking clauses rely on: no element skipped after '
+         'swap_remove, nogoods deleted only when not a reason (B4/B5), implicit reasons imply their '
+         'predicate (B6), the nogood propagator looks at exactly the watchers whose predicate became '
+         'true and never drops an unvisited one (B7/B8). Also runs the KERNEL BUNDLE (rule ids …K<n>):'
+         ' the kernel rules every verdict depends on — predicate algebra, nogood watchers, minimisers,'
+         ' conflict-analysis tables, nogood deletion, decision read-back, no-learning resolver, '
+         'constraint builders, reified reasons — wherever they are not already registered here under '
+         'another id. Also runs the LIFE-CYCLE BUNDLE (…L<n>): the typestate rules over arbitrary API '
+         'sequences of C10 (usable root state after every call, inert posting in inconsistent states, '
+         'entry guards, stored-solution extent). Does not decide that the underlying solves are '
+         'correct (C01/C02)')
 TECHNIQUE = "static analysis: callee-set / def-use / must-pass / symbolic table over rustc MIR"
 
 ADAPTORS_OK = {"map", "collect", "into_iter", "iter", "copied", "cloned", "rev"}
